@@ -5,6 +5,8 @@
  R3 patch arrays: no literal sizes; the channel dimension derives from pixels.shape[0]
  R4 both extractors produce the layout (centres, offsets, channels, ph, pw)
  R5 fill value / mode / order forwarding; fast path only for order 0 + constant mode
+ R6 slice arithmetic of patch bounds, R7 sampling grid axes
+ R8 warp_to_shape keeps the dtype of the sampled buffer (reshape / in-place scrub only)
 """
 import ast
 
@@ -468,7 +470,86 @@ def rule_r7(p, res):
 # rules of sibling properties over code paths this property's statement also quantifies over (DESIGN.md section 3, shared rules)
 ALSO = ['C01.R3', 'C01.R4']
 
-RULES = [rule_r1, rule_r2, rule_r3, rule_r4, rule_r5, rule_r6, rule_r7]
+_DTYPE_KEEPING_METHODS = ("reshape", "copy", "view", "squeeze", "ravel", "transpose", "swapaxes")
+_DTYPE_KEEPING_FUNCS = ("np.reshape", "np.ascontiguousarray", "np.asarray", "np.nan_to_num", "np.squeeze", "np.rollaxis", "np.moveaxis")
+
+
+def _is_float_const(e):
+    v = const_value(e) if not isinstance(e, ast.Constant) else e.value
+    if isinstance(e, ast.UnaryOp) and isinstance(e.operand, ast.Constant):
+        v = e.operand.value
+    return isinstance(v, float) or (isinstance(e, ast.Attribute) and e.attr in ("nan", "inf")) or \
+        (isinstance(e, ast.Call) and (dotted(e.func) or "") in ("float", "np.float64", "np.float32"))
+
+
+def rule_r8(p, res):
+    r = res.rule("C13.R8", "warp_to_shape (which every crop goes through) hands the sampled buffer on in the source dtype: between self.sample(...) and "
+                 "the image builder it is only reshaped / scrubbed in place, never rebuilt by an expression that promotes integer samples to float")
+    f = p.method("Image", "warp_to_shape")
+    r.instance(f)
+    assigns = {}
+    for n in walk_own(f.node):
+        if isinstance(n, ast.Assign) and len(n.targets) == 1 and isinstance(n.targets[0], ast.Name):
+            assigns.setdefault(n.targets[0].id, []).append(n)
+    build = [c for c in calls_in(f.node) if isinstance(c.func, ast.Attribute) and c.func.attr == "_build_warp_to_shape"]
+    need(len(build) == 1 and build[0].args and isinstance(build[0].args[0], ast.Name), "C13.R8: warp_to_shape no longer funnels a named buffer into _build_warp_to_shape")
+    reached_sample = [False]
+    seen = set()
+
+    def trace(e, at):
+        """e must evaluate to the sampled buffer in its own dtype"""
+        if isinstance(e, ast.Name):
+            if e.id in seen:
+                return
+            seen.add(e.id)
+            need(e.id in assigns, "C13.R8: `%s` has no simple assignment in warp_to_shape" % e.id)
+            for a in assigns[e.id]:
+                trace(a.value, a)
+            return
+        if isinstance(e, ast.Subscript):
+            return trace(e.value, at)
+        if isinstance(e, ast.Call):
+            nm = dotted(e.func) or ""
+            if isinstance(e.func, ast.Attribute) and e.func.attr == "sample" and norm(e.func.value) == "self":
+                reached_sample[0] = True
+                return
+            if nm == "cv2_perspective_interpolation":
+                return
+            if isinstance(e.func, ast.Attribute) and e.func.attr in _DTYPE_KEEPING_METHODS and not nm.startswith("np."):
+                return trace(e.func.value, at)
+            if nm in _DTYPE_KEEPING_FUNCS and e.args:
+                if kwarg(e, "dtype") is not None:
+                    r.violation(f, at, "`%s(..., dtype=...)` re-types the sampled buffer: crops of this image no longer come back in the source dtype" % nm)
+                    return
+                return trace(e.args[0], at)
+            if isinstance(e.func, ast.Attribute) and e.func.attr == "astype":
+                r.violation(f, at, "`.astype(...)` on the sampled buffer: crops no longer come back in the source dtype")
+                return
+            if nm == "np.where" and len(e.args) == 3:
+                vals = e.args[1:]
+                fl = [v for v in vals if _is_float_const(v)]
+                if fl:
+                    r.violation(f, at, "`np.where(..., %s, ...)` promotes integer samples to float64 (the in-place scrub `sampled[np.isnan(sampled)] = 0` keeps the "
+                                "dtype): every crop of an integer image comes back as float" % norm(fl[0]))
+                    return
+                arrs = [v for v in vals if not isinstance(v, ast.Constant)]
+                need(len(arrs) == 1, "C13.R8: np.where with two array branches at line %d" % at.lineno)
+                return trace(arrs[0], at)
+            raise AnalysisError("C13.R8: cannot tell whether `%s` keeps the dtype of the sampled buffer (line %d)" % (nm or norm(e.func), at.lineno))
+        if isinstance(e, ast.BinOp):
+            if _is_float_const(e.left) or _is_float_const(e.right) or isinstance(e.op, ast.Div):
+                r.violation(f, at, "arithmetic `%s` with a float operand / true division promotes integer samples to float: crops lose the source dtype" % norm(e)[:60])
+                return
+            raise AnalysisError("C13.R8: arithmetic on the sampled buffer at line %d" % at.lineno)
+        raise AnalysisError("C13.R8: unrecognised expression feeding the warped pixels at line %d: %s" % (at.lineno, norm(e)[:60]))
+
+    trace(build[0].args[0], build[0])
+    need(reached_sample[0], "C13.R8: the warped pixels no longer derive from self.sample(...)")
+    # in-place scrubs may only store integers-compatible constants that cannot change the dtype (a store never changes it) -- recorded for evidence
+    r.check(True, f, f.node, "")
+
+
+RULES = [rule_r1, rule_r2, rule_r3, rule_r4, rule_r5, rule_r6, rule_r7, rule_r8]
 
 _CROP_FIXED_GUARD = "if not (constrain_to_boundary or (all_max_bounded and all_min_bounded)):"
 WITNESSES = [
@@ -514,4 +595,13 @@ WITNESSES += [
 
 WITNESSES += [
     Witness("C13.W13", "menpo/image/boolean.py", "BooleanImage.bounds_true", "if constrain_to_bounds:", "if not constrain_to_bounds:", rule="C13.G8", construct="bounds_true", note="seeded change R5-C13-A (generic: option polarity)"),
+]
+
+WITNESSES += [
+    Witness("C13.W14", "menpo/image/base.py", "Image.warp_to_shape", "sampled[np.isnan(sampled)] = 0", "sampled = np.where(np.isnan(sampled), 0.0, sampled)",
+            rule="C13.R8", construct="warp_to_shape", note="seeded change R4-C13-C (float literal promotes integer crops to float64)"),
+    Witness("C13.T6", "menpo/image/base.py", "Image.warp_to_shape", "sampled[np.isnan(sampled)] = 0", "sampled = np.where(np.isnan(sampled), 0, sampled)",
+            rule=None, kind="T", note="twin: an integer literal is a weak scalar and keeps the dtype"),
+    Witness("C13.W15", "menpo/image/base.py", "Image.warp_to_shape", "warped_pixels = sampled.reshape(", "warped_pixels = sampled.astype(float).reshape(",
+            rule="C13.R8", construct="warp_to_shape"),
 ]
